@@ -432,6 +432,10 @@ static inline int ubuf_block_truncate(struct ubuf *ubuf, int offset)
         return UBASE_ERR_INVALID;
 
     struct ubuf_block *head_block = ubuf_block_from_ubuf(ubuf);
+    if (offset < 0)
+        offset += head_block->total_size;
+    if (unlikely(offset < 0))
+        return UBASE_ERR_INVALID;
     if (!offset) {
         if (head_block->next_ubuf != NULL) {
             ubuf_free(head_block->next_ubuf);
